@@ -189,8 +189,9 @@ Section Hull.
     existsb (fun a => existsb (fun b => negb (a =? k) && negb (b =? k) &&
                                         (ccw_idx pts a k b =?! zero) && negt (dotk pts k a b)) (seq 0 n)) (seq 0 n).
   Definition extremeb (pts : list pt) (k : nat) : bool := boundaryb pts k && negb (betweenb pts k).
-  Definition nodupb (l : list nat) : bool := nat_list_eqb (np_unique l) (sort_nat l).
   Definition memb (x : nat) (l : list nat) : bool := existsb (Nat.eqb x) l.
+  Fixpoint nodupb (l : list nat) : bool :=
+    match l with [] => true | a :: t => negb (memb a t) && nodupb t end.
   (* degenerate clause of the property, as a per-case test: every extreme vertex is returned, and only
      boundary points are *)
   Definition graham_degenb (pts : list pt) (out : list nat) : bool :=
